@@ -808,7 +808,42 @@ theorem C17_explicit (r g : Nat) (rels0 : Rels) (ops : List EOp) :
     ∀ o ∈ (runE r g ⟨rels0, none⟩ ops).2, o = .quiet ∨ o = .served r g ∨ o = .err .invalid :=
   ⟨(stepE_select (invE_exec ops (Or.inl rfl))).1, runE_obs ops (Or.inl rfl)⟩
 
+/-! ### pickling a strategy (Round 5): `__reduce__` = the constructor parameters, unpickling = the constructor -/
+
+/-- constructor parameters of `Latest` (project, configured release, refresh interval in ms). -/
+structure LatestParams where
+  project : Nat
+  release : Option Nat
+  interval : Nat
+deriving DecidableEq, Repr
+
+/-- `Latest.__reduce__`: the argument tuple handed to the class on unpickling. -/
+def LatestParams.reduce (p : LatestParams) : Nat × Option Nat × Nat := (p.project, p.release, p.interval)
+/-- `Latest(*args)`. -/
+def LatestParams.rebuild (a : Nat × Option Nat × Nat) : LatestParams := ⟨a.1, a.2.1, a.2.2⟩
+/-- a reduce that leaves the interval to the constructor default (what the property excludes). -/
+def LatestParams.reduceDefault (dflt : Nat) (p : LatestParams) : Nat × Option Nat × Nat := (p.project, p.release, dflt)
+
+/-- **C17_reduce_rebuild**: a pickle round-trip is the identity on every constructor parameter. -/
+theorem C17_reduce_rebuild (p : LatestParams) : LatestParams.rebuild p.reduce = p := by cases p; rfl
+
+/-- **C17_latest_rebuilt**: the history theorem holds verbatim of the unpickled selector. -/
+theorem C17_latest_rebuilt (p : LatestParams) (rels0 : Rels) (hwf : WF rels0) (ops : List LOp) (r g : Nat) :
+    (LatestParams.rebuild p.reduce).interval = p.interval ∧
+    ((execL true (LatestParams.rebuild p.reduce).release (LState.init rels0) ops).cache ≠ none →
+     Spec p.release (execL true p.release (LState.init rels0) ops).rels r g →
+     (stepL true (LatestParams.rebuild p.reduce).release
+        (execL true (LatestParams.rebuild p.reduce).release (LState.init rels0) (ops ++ [.tick, .tick])) (.select true)).2
+       = .served r g) := by
+  rw [C17_reduce_rebuild]
+  exact ⟨rfl, fun hc hs => (C17_latest p.release rels0 hwf ops r g hc hs).2.2⟩
+
+/-- non-vacuity: dropping the interval is *not* a round trip (30 s default vs a 20 ms selector). -/
+example : LatestParams.rebuild (LatestParams.reduceDefault 30000 ⟨0, some 1, 20⟩) ≠ ⟨0, some 1, 20⟩ := by decide
+example : LatestParams.rebuild (LatestParams.reduce ⟨0, some 1, 20⟩) = ⟨0, some 1, 20⟩ := by decide
+
 /-! ### non-vacuity -/
+
 
 example : run (init [12, 5, 5]) 15 = some ⟨[(12, 9), (5, 4), (5, 2)], 15⟩ := by decide
 example : trace (init [9, 1]) 10 = [0, 0, 0, 0, 0, 0, 0, 0, 0, 1] := by decide
